@@ -334,15 +334,52 @@ def r3(ctx, vb, core):
     prefix_guards(ctx, 'R-C03-3', cons, flat)
 
 
+def vector_generators_fixed(ctx):
+    """(True, why) when two parameter objects can only hold the same point at the same (party, index) position: the vectors of
+    BulletproofGens are not public, the struct is built only by its constructor (whose derivation R-C11-1 decides) and by Clone, and
+    nothing else writes the vectors.  Then comparing them across batch members is redundant, and its absence refuses nothing less."""
+    facts = ctx.facts
+    adt = next((a for pth, a in facts.adts.items() if pth.endswith('::BulletproofGens')), None)
+    if adt is None:
+        return False, 'BulletproofGens not found'
+    fields = {f['name']: f for f in adt['variants'][0]['fields']}
+    vecs = [n for n, f in fields.items() if f['ty'].startswith('std::vec::Vec<std::vec::Vec<')]
+    if len(vecs) < 2 or any(fields[n].get('vis') == 'Public' for n in vecs):
+        return False, 'the generator vectors are public fields'
+    for b in facts.fns():
+        builder = b.path.endswith('BulletproofGens::<P>::new') or (b.impl_trait == 'std::clone::Clone' and 'BulletproofGens' in (b.impl_self or ''))
+        for blk in b.blocks:
+            for st in blk['stmts']:
+                if st['k'] != 'assign':
+                    continue
+                rv = st['rv']
+                if rv['k'] == 'aggregate' and rv['kind'].get('path', '').endswith('::BulletproofGens') and not builder:
+                    return False, 'BulletproofGens is also built in %s' % b.path
+                names = [e.get('name') for e in st['place']['p'] if e['k'] == 'field']
+                if any(n in vecs for n in names) and not builder:
+                    return False, 'a generator vector is written in %s' % b.path
+                if rv['k'] == 'ref' and rv.get('mut') and any(e.get('name') in vecs for e in rv['place']['p'] if e['k'] == 'field') and not builder:
+                    return False, 'a generator vector is borrowed mutably in %s' % b.path
+    return True, 'every BulletproofGens is built by its constructor or cloned, and its vectors are private and never written elsewhere'
+
+
 def prefix_guards(ctx, rule, cons, flat=None):
     rep = ctx.rep
     if flat is None:
         rows = guard_table(ctx, cons)
         flat = [(r['ctx'], a, r) for r in rows for a in r['atoms']]
+    fixed, fixed_why = vector_generators_fixed(ctx)
     for nm, fld in (('G vector', '.g_vec'), ('H vector', '.h_vec')):
         hit = None
         why = 'no `any(a != b)` guard over the zipped generator iterators'
+        harmless, others = [], []
         for c, a, r in flat:
+            if r['eff'] != 'bypass' and fld in repr(a):
+                # a prefix comparison (zip + any(a != b), or its loop form) with whichever member never refuses a consistent batch;
+                # any other condition on the vectors may
+                pre = (a[0] == 'pred' and a[1] == 'any' and a[3] is False and str(a[2][0]).startswith('zip(') and str(a[2][0]).count(fld) >= 2) or \
+                      (a[0] == 'cmp' and a[1] == 'Eq' and a[2].startswith('each(') and a[3].startswith('each(') and any(x[0] == 'forall' and x[1].startswith('zip(') for x in c))
+                (harmless if pre else others).append((a, r))
             s = None
             if a[0] == 'pred' and a[1] == 'any' and a[3] is False and r['eff'] != 'bypass':
                 s = a[2][0]
@@ -359,10 +396,32 @@ def prefix_guards(ctx, rule, cons, flat=None):
                     only_self = unconditional(c, lambda x: x[0] == 'cmp' and x[1] == 'Ne' and any(y.startswith('idx(') for y in x[2:4]))
                     whole = only_self and any('p1' in x[1] and 'skip(' not in x[1] and 'take(' not in x[1] for x in foralls)
                     other = 'idx(' in s or "p1[" in s
+                    # the member compared with is the selected one: the two sources of the zipped iterators are the walking member and
+                    # `statements[X]` with X the index the exemption test names -- not member 0
+                    import re as _re
+                    srcs = _re.findall(r'array:(.*?)\.generators\.bp_gens' + _re.escape(fld), s)
+                    sel = [x for x in srcs if not x.startswith('each(')]
+                    exempt = [y for x in c if x[0] == 'cmp' and x[1] == 'Ne' for y in x[2:4] if not y.startswith('idx(p1)')]
+                    first = bool(sel) and all(x in ("p1['first']", 'p1[0]') for x in sel)
+                    if first and not any(e_ in ('0', "'first'") for e_ in exempt):
+                        why = 'every member is compared with member 0 (%s), not with the selected largest member' % sel[0]
+                        continue
+                    if sel and exempt and not any(x == 'p1[%s]' % e_ for x in sel for e_ in exempt) and all(x.startswith('p1[') for x in sel):
+                        why = 'the member compared with (%s) is not the one exempted from the comparison (%s)' % (sel[0], exempt[0])
+                        continue
                     if whole and other:
                         hit = r
                     else:
                         why = 'the comparison does not range over every member against the selected member'
+        if hit is None and fixed and not others:
+            # nothing to refuse: the vectors agree by construction, and what is there (if anything) is a prefix comparison
+            rep.ok(rule, '%s/consistency/prefix/%s' % (rule, nm.split()[0]),
+                   'the %s generators of two members agree at every common position by construction (%s); %s' % (
+                       nm, fixed_why, 'the comparison present is a prefix comparison and refuses nothing valid (%s)' % why if harmless else 'no comparison is needed'),
+                   ctx.where(cons))
+            continue
+        if hit is None and others:
+            why = 'a condition on the vectors that is not a prefix comparison (%s) may refuse a batch whose members differ only in capacity' % (others[0][0],)
         rep.check(hit is not None, rule, '%s/consistency/prefix/%s' % (rule, nm.split()[0]),
                   'the %s generators of every member are compared element-wise (prefix) with those of the selected largest member' % nm,
                   '%s generators: %s' % (nm, why), ctx.where(cons, hit['guard'].bb) if hit else ctx.where(cons))
